@@ -130,9 +130,15 @@ func generate(out *os.File) {
 		fmt.Fprintf(os.Stderr, "Public key: %s\n", k.Recipient())
 	}
 
-	fmt.Fprintf(out, "# created: %s\n", time.Now().Format(time.RFC3339))
-	fmt.Fprintf(out, "# public key: %s\n", k.Recipient())
-	fmt.Fprintf(out, "%s\n", k)
+	if _, err := fmt.Fprintf(out, "# created: %s\n", time.Now().Format(time.RFC3339)); err != nil {
+		errorf("failed to write output: %v", err)
+	}
+	if _, err := fmt.Fprintf(out, "# public key: %s\n", k.Recipient()); err != nil {
+		errorf("failed to write output: %v", err)
+	}
+	if _, err := fmt.Fprintf(out, "%s\n", k); err != nil {
+		errorf("failed to write output: %v", err)
+	}
 }
 
 func convert(in io.Reader, out io.Writer) {
@@ -148,7 +154,9 @@ func convert(in io.Reader, out io.Writer) {
 		if !ok {
 			errorf("internal error: unexpected identity type: %T", id)
 		}
-		fmt.Fprintf(out, "%s\n", id.Recipient())
+		if _, err := fmt.Fprintf(out, "%s\n", id.Recipient()); err != nil {
+			errorf("failed to write output: %v", err)
+		}
 	}
 }
 
